@@ -45,7 +45,8 @@ pub fn populate(mk: &mut Mk, o: &TreeOpts) {
         mk.put_slot(root, &label);
         let old: Vec<u32> = OLD_CHAIN.iter().map(|&c| fix(c)).collect();
         mk.file(root, "OLD.DAT", 0x20, &old, 2 * cb + cb / 2, 1);
-        mk.file(root, "RO.DAT", 0x21, &[fix(5)], 100, 2);
+        // RO.DAT sits in the very first data cluster (directly behind a FAT16 root directory); the rest of its block is zero
+        mk.file(root, "RO.DAT", 0x21, &[fix(2)], 100, 2);
         mk.file(root, "EMPTY.DAT", 0x20, &[], 0, 3);
         // exactly three clusters (cluster-aligned length), chain not in ascending order
         mk.file(root, "ALGN.DAT", 0x20, &[fix(15), fix(14), fix(16)], 3 * cb, 6);
@@ -164,10 +165,12 @@ pub fn g_v16b() -> Geom {
     g
 }
 pub fn g_v32a() -> Geom {
-    Geom::fat32(65525, 1)
+    // 65552 clusters: the last clusters have numbers above 65535 (the high 16 bits of start clusters matter)
+    Geom::fat32(65552, 1)
 }
 pub fn g_v32b() -> Geom {
-    let mut g = Geom::fat32(65600, 1);
+    // four blocks per cluster: directory clusters span several blocks
+    let mut g = Geom::fat32(65600, 4);
     g.nfats = 1;
     g.root_cluster = 5;
     g.fat_size = g.min_fat_size() + 1;
